@@ -24,15 +24,19 @@ def model(test, q, t, **kw):
 PROPS = {
     "C01": model("TestC01Model", 2500, 20000),
     "C02": model("TestC02Model", 2500, 20000),
+    "C03": model("TestC03Isolation", 1200, 8000),
     "C04": model("TestC04Model", 2500, 25000),
     "C05": model("TestC05Model", 2500, 15000),
     "C06": model("TestC06Model", 2500, 12000),
     "C07": model("TestC07Model", 2000, 10000),
     "C10": model("TestC10Model", 2500, 10000),
+    "C11": model("TestC11Model", 2500, 15000),
     "C12": model("TestC12Model", 3000, 25000),
     "C13": model("TestC13Model", 3000, 25000),
     "C14": model("TestC14Model", 2500, 15000),
     "C16": model("TestC16Model", 2500, 15000),
+    "C17": model("TestC17Flags", 1000, 6400),
+    "C18": model("TestC18Model", 2000, 12000),
 }
 
 _T = "stateful property-based testing (rapid) against a reference model, handler-level driver in a synctest bubble"
@@ -41,6 +45,12 @@ def _m(text, ref):
     return {"text": text + " Exploration level: the property held on every generated history; no claim of absence.", "design_ref": ref, "note": _N, "technique": _T}
 
 META = {
+    "C03": {"text": "Two oracles over generated multi-session histories (never-joining connections, switches, returns, ids valid only elsewhere, reused session ids): (a) the reference model - nothing a connection sends shows up in a session it is not in; (b) a differential (noninterference) oracle - for every session instance T the concrete trace is re-run on a fresh server keeping only the stints of connections while they are in T, and every stint's normalised message stream (session ids masked) must be identical. Exploration level: held on every generated history; no claim of absence.",
+            "design_ref": "DESIGN.md 4 (C03)", "note": _N + " Receipts (one global queue by design) and signed latency are excluded from these scripts; session references that depend on which released id is reissued next are rewritten.", "technique": "differential / noninterference property-based testing (rapid): full history vs per-session projection, plus reference model"},
+    "C11": _m("Pose-heavy histories on the fake clock (sequence number in px, arbitrary float bit patterns, foreign/unknown/deleted entities, absent pose, deletions and switches while updates are pending): per frame exactly the latest update of each owned live entity is applied and relayed once to the others, nothing for dropped updates, and the stored pose is what joiners are handed.", "DESIGN.md 4 (C11)"),
+    "C17": {"text": "Metamorphic relation: each generated history is run flag-free under the reference model, then its concrete trace is replayed on a fresh flag-free server and on a fresh server with flag set F (singles, empty, full, random subsets, unknown names; thorough: all 1024 subsets). Per connection and step the F stream must equal the flag-free stream minus exactly the classes F names, and the final server state must be identical. Exploration level.",
+            "design_ref": "DESIGN.md 4 (C17)", "note": _N + " HAGALL_FEATURE_FLAGS parsing in cmd/main.go is outside this part.", "technique": "metamorphic property-based testing (rapid): flag-free run vs run under flag set F"},
+    "C18": _m("Signed-latency runs on the fake clock: the scripted client answers each ping after a chosen delay (1us..1s), sometimes twice, with unknown ids, after completion, or restarts; the final response must carry a signature that recovers (independent Keccak-256 + secp256k1 recovery) to the server wallet over exactly the returned bytes, name client/session UUID/wallet, list exactly the issued ping ids, have consistent statistics and last == delay of the final round; misbehaving answers must be refused and not advance the run.", "DESIGN.md 4 (C18)"),
     "C01": _m("Every connection's replica (built from SESSION_STATE/VIKJA_STATE/ODAL_STATE, updated by each broadcast in arrival order, and by its own accepted requests) is compared after every step with the reference model, which is itself compared with the server's state read through exported API; every broadcast must be applicable to the replica it reaches; every joiner's snapshot must equal the model.", "DESIGN.md 2.2-2.3, 4 (C01)"),
     "C02": _m("For every accepted change the model computes the exact recipient set; each recipient's inbox must hold exactly one matching relay (ids, body, origin timestamp), the sender and non-members none, and nothing may be left over anywhere after the step - which also fixes per-sender order in sequential histories.", "DESIGN.md 4 (C02)"),
     "C04": _m("After every step the requester's inbox must hold exactly one answer of the defined type / an error code from the acceptable set, nobody else anything unexpected, and the server state must equal the model - so a refused request provably changed nothing; requests from connections in no session may only be answered with an error, dropped, or end the connection.", "DESIGN.md 2.1-2.4, 4 (C04)"),
